@@ -88,6 +88,7 @@ func c02ExecB(c *fw.Ctx, cas c02Case) (stored bool) {
 	d.Cmd("HELO c.test")
 	d.Cmd("MAIL FROM:<s@o.test>")
 	d.Cmd("RCPT TO:<c02@x.test>")
+	d.Cmd("RCPT TO:<c02b@x.test>") // a second mailbox gets its own copy of the same bytes
 	_, fin := d.Data(body)
 	if fin.OK {
 		d.Cmd("QUIT")
@@ -137,6 +138,15 @@ func c02ExecB(c *fw.Ctx, cas c02Case) (stored bool) {
 		fail("store|size", fmt.Sprintf("Size()=%d but Source() has %d bytes", o.Size, len(o.Body)))
 	}
 	if !checkSrc("store", o.Body) {
+		return
+	}
+	if ms2, err := s.StoreH.Store.GetMessages("c02b"); err != nil || len(ms2) != 1 {
+		fail("store2|count", fmt.Sprintf("the second recipient's mailbox lists %d messages after one acknowledged delivery (err=%v)", len(ms2), err))
+		return
+	} else if o2 := sys.Observe(ms2[0]); o2.BodyErr != "" {
+		fail("store2|unreadable", "second recipient's copy: Source(): "+o2.BodyErr)
+		return
+	} else if !checkSrc("store2", o2.Body) {
 		return
 	}
 	id := o.ID
